@@ -61,7 +61,9 @@ var carriers = []string{"GetBlob", "GetBlobRange", "GetManifest", "GetTag", "Res
 	// errors raised by the backend's BlobWriter rather than by an Interface method ("<call>@<stage>")
 	"Writer@write", "Writer@close", "Writer@commit", "PushBlob@write", "PushBlob@commit",
 	// the error of a method on a registry where everything else works
-	"MountBlob@only"}
+	"MountBlob@only",
+	// a listing that fails only when the client asks for its second page (page size 2)
+	"Tags@later-page", "Repositories@later-page"}
 
 func isHead(c string) bool { return strings.HasPrefix(c, "Resolve") }
 
@@ -157,10 +159,10 @@ func call(reg ociregistry.Interface, carrier string, hops int) error {
 		return reg.DeleteManifest(ctx, "foo", dg)
 	case "DeleteTag":
 		return reg.DeleteTag(ctx, "foo", "latest")
-	case "Repositories":
+	case "Repositories", "Repositories@later-page":
 		_, err := ociregistry.All(reg.Repositories(ctx, ""))
 		return err
-	case "Tags":
+	case "Tags", "Tags@later-page":
 		_, err := ociregistry.All(reg.Tags(ctx, "foo", ""))
 		return err
 	case "Referrers":
@@ -245,7 +247,20 @@ type observed struct {
 func through(s Script, n int) (observed, error) {
 	before := s.build()
 	var reg ociregistry.Interface = &ociregistry.Funcs{NewError: func(ctx context.Context, method, repo string) error { return before }}
-	if s.Carrier == "MountBlob@only" {
+	if strings.HasSuffix(s.Carrier, "@later-page") {
+		// a listing whose first page is fine and that fails when it is asked to go on
+		items := ociregistry.SliceSeq([]string{"t1", "t2", "t3"})
+		later := func(startAfter string) ociregistry.Seq[string] {
+			if startAfter == "" {
+				return items
+			}
+			return ociregistry.ErrorSeq[string](before)
+		}
+		reg = &ociregistry.Funcs{
+			Tags_:         func(ctx context.Context, repo, startAfter string) ociregistry.Seq[string] { return later(startAfter) },
+			Repositories_: func(ctx context.Context, startAfter string) ociregistry.Seq[string] { return later(startAfter) },
+		}
+	} else if s.Carrier == "MountBlob@only" {
 		// a registry on which the mount, and nothing but the mount, fails
 		reg = &mountFails{Interface: ocimem.New(), err: before}
 	} else if _, stage, ok := strings.Cut(s.Carrier, "@"); ok {
@@ -272,7 +287,7 @@ func through(s Script, n int) (observed, error) {
 		tap := &statusTap{rt: tr}
 		taps = append(taps, tap)
 		closers = append(closers, func() { tr.CloseIdleConnections(); srv.Close() })
-		c, err := ociclient.New(srv.Host, &ociclient.Options{Insecure: true, Transport: tap})
+		c, err := ociclient.New(srv.Host, &ociclient.Options{Insecure: true, Transport: tap, ListPageSize: 2})
 		if err != nil {
 			return observed{}, err
 		}
@@ -537,7 +552,7 @@ func genScript(t *rapid.T) Script {
 var prop = &vt.Prop[Script]{
 	ID:   "C07",
 	Name: "ErrorsAcrossTheWire",
-	Rule: "error values: each of the 15 standard codes, custom codes, no code; optional JSON detail (objects, arrays, scalars, null, spaced, numbers that float64 cannot hold); messages {empty, random UTF-8, beginning with the rendered code, with a status line, with both, stuttering, odd spacing}; 0-3 wrappers from {fmt %w, NewHTTPError(status)} with statuses 400-599 incl. ones without a reason phrase (419, 452, 499, 512, 599); carrier = each of the 18 Interface methods (GET, HEAD, POST, PUT, DELETE and list-based) and errors raised by the backend's BlobWriter at Write, Close or Commit (reached through a chunked writer and through PushBlob), and a MountBlob that fails on a registry where everything else works; sent through 1..3 real server->client hops, and for every hop count h <= hops; oracle = errors.Is against every standard value unchanged (HEAD carriers: the documented status mapping; ErrRangeInvalid status-based as documented), status on every hop = the specification's for the code, else the error's own HTTP status, else 500, code and detail JSON-equal, message after h hops == message after one hop; non-trivial = >= 2 hops, a wrapper, or a prefix-like message; distinct = (code, wraps, message class, carrier, hops, status)",
+	Rule: "error values: each of the 15 standard codes, custom codes, no code; optional JSON detail (objects, arrays, scalars, null, spaced, numbers that float64 cannot hold); messages {empty, random UTF-8, beginning with the rendered code, with a status line, with both, stuttering, odd spacing}; 0-3 wrappers from {fmt %w, NewHTTPError(status)} with statuses 400-599 incl. ones without a reason phrase (419, 452, 499, 512, 599); carrier = each of the 18 Interface methods (GET, HEAD, POST, PUT, DELETE and list-based) and errors raised by the backend's BlobWriter at Write, Close or Commit (reached through a chunked writer and through PushBlob), a MountBlob that fails on a registry where everything else works, and tag / repository listings that fail when the second page is asked for; sent through 1..3 real server->client hops, and for every hop count h <= hops; oracle = errors.Is against every standard value unchanged (HEAD carriers: the documented status mapping; ErrRangeInvalid status-based as documented), status on every hop = the specification's for the code, else the error's own HTTP status, else 500, code and detail JSON-equal, message after h hops == message after one hop; non-trivial = >= 2 hops, a wrapper, or a prefix-like message; distinct = (code, wraps, message class, carrier, hops, status)",
 	Gen:  genScript,
 	Run:  run,
 }
@@ -548,7 +563,7 @@ func TestPropErrors(t *testing.T) { vt.Check(t, prop) }
 var propGrid = &vt.Prop[Script]{
 	ID:   "C07",
 	Name: "ErrorGrid",
-	Rule: "complete grid: 15 standard codes + custom + none x 24 carriers x {bare, NewHTTPError(452) wrapper} over 2 hops",
+	Rule: "complete grid: 15 standard codes + custom + none x 26 carriers x {bare, NewHTTPError(452) wrapper} over 2 hops",
 	Run:  run,
 }
 
